@@ -60,12 +60,17 @@ CHECKS["C07"] = dict(
          "through the cluster homomorphism to real int64 parameters and sent to get-entries of a real instance: the "
          "GetLeavesByRangeRequest seen by the backend (or its absence), the status and the served bytes are compared; "
          "malformed parameter strings must be 4xx without a backend call; served entries are decoded with "
-         "ct.LogEntryFromLeaf and compared with the submissions; get-entry-and-proof must serve the same bytes.",
+         "ct.LogEntryFromLeaf and compared with the submissions; get-entry-and-proof must serve the same bytes. "
+         "GetEntriesRangeInt.tla repeats the transcription with the true modulus 2^64 and Apalache (SMT, unbounded integers) "
+         "checks the range laws for ALL int64 start / end per batch size (and refutes the pre-repair computation); its "
+         "witnesses of 16 boundary classes are sent to the real handler with expectations computed from the property text.",
     design="4/C07",
-    note="scaled-word homomorphism (MaxWord=7807; 2^63-1-MaxWord divisible by every batch size used); values only from "
-         "boundary clusters; reference backend; Apalache run on true integers not built (see DESIGN.md).",
-    technique="TLA+ case-analysis spec + TLC exhaustive enumeration; every enumerated case replayed into the real handler "
-              "with backend request inspection",
+    note="TLC: scaled-word homomorphism (MaxWord=7807; 2^63-1-MaxWord divisible by every batch size used), values only from "
+         "boundary clusters. Apalache: one batch size per run (quick 1, 3, 1000; thorough 15 sizes up to 2^63-1) so that "
+         "'% max' stays linear; both bind to the code through the same hand transcription of parseGetEntriesRange, which the "
+         "replay ties to the handler on the enumerated cases and witnesses. Reference backend.",
+    technique="TLA+ case-analysis spec + TLC exhaustive enumeration + Apalache symbolic check over all int64 values; every "
+              "enumerated case and every Apalache witness replayed into the real handler with backend request inspection",
 )
 
 CHECKS["C08"] = dict(
